@@ -73,6 +73,12 @@ CORPUS = [
     dict(tree=('fn', 'sqrt', _X), x=[0.0011, 1.0], method='central', n=1, order=2, shape=[2]),           # 2eb6030
     dict(tree=('fn', 'exp', ('mul', ('ci', 1.0), _X)), x=[0.5], method='central', n=1, order=2, cplx=True),   # 4b12ea2
     dict(tree=('fn', 'sin', _X), x=[0.3, 1.2, 2.0], method='multicomplex', n=1, order=2, shape=[3]),     # 8280d5f
+    # witnesses of the listed (open) findings that a random draw of the quick tier does not always contain
+    dict(tree=('fn', 'sin', ('fn', 'expm1', ('div', _X, ('c', 0.1)))), x=[0.5291377990629251, 0.3655232913548389], shape=[2],
+         method='central', n=1, order=3),                               # selector-picked-steps-beyond-validity-radius
+    dict(tree=('powr', ('div', ('mul', ('c', 2.5), ('powr', _X, 2.5)), ('powi', ('powr', _X, 1.5), -1)), 2.5),
+         x=[0.03865725934795732], method='forward', n=3, order=8,
+         step=dict(kind='scalar', value=0.016036668349966334)),       # rule-order-lost-in-ill-conditioned-moment-system
 ]
 
 
